@@ -23,7 +23,8 @@ def record(ctx, name, st, claims, group_prefix, sample=None, on_cex=None):
 def instances(tier):
     # runtime, poll budget, with supervisor
     if tier == 'quick':
-        return [('ActorRuntime', 1, True)]
+        # both loop twins on every change: the thread-local runtime (thread_local/inner.rs) duplicates start / processing_loop / process_message / handle_message
+        return [('ActorRuntime', 1, True), ('ThreadLocalActorRuntime', 1, True)]
     return [('ActorRuntime', 1, True), ('ActorRuntime', 2, True), ('ActorRuntime', 1, False), ('ThreadLocalActorRuntime', 1, True)]
 
 
